@@ -9,6 +9,18 @@ otherwise it is the class of the path ('prefix-name': the first component
 after '/mem/' starts with a character of the prefix) or the relation of the
 write to the previous content ('overwrite-shorter', 'overwrite-longer',
 'overwrite-same-length', 'append-existing', 'after-rm', 'first-write').
+
+Histories also hold reader handles that stay open over later operations
+(`pg.io.open(path, 'r'/'rb')` read in pieces, `pg.open_jsonl` /
+`pg.io.open_sequence` readers iterated record by record, several per path).
+What a handle returns is compared with the content the path had when the
+handle was opened, from the handle's own position, as long as the path was not
+written or removed since (afterwards the handle is 'stale': it may still be
+read and closed, what it returns is not judged). A failure that needs an
+unclosed reader on the path (the replay without one passes) gets the feature
+'open-reader' when the failing operation only reads, and
+'overwrite+open-reader' / 'append+open-reader' / 'first-write+open-reader'
+when it is a write.
 """
 import os
 
@@ -153,6 +165,67 @@ def seq_write(path, recs, append, raw, api='open_jsonl', use_with=True):
   return op
 
 
+# -- reader handles ----------------------------------------------------------------
+
+class Handle:
+  """A reader that stays open. `content` is a str/bytes (file level) or a
+  list of (value, line) records (sequence level); `pos` is the model position."""
+
+  def __init__(self, path, level, api, f, content, raw=False):
+    self.path, self.level, self.api, self.f = path, level, api, f
+    self.content, self.raw = content, raw
+    self.pos = 0
+    self.it = None
+    self.stale = False
+    self.reads = 0
+
+  def show(self):
+    return f'{self.api}({self.path})@{self.pos}' + ('(stale)' if self.stale else '')
+
+
+def gen_read(rng, h):
+  """A read request for handle `h`: (how, n)."""
+  if h.level == 'seq':
+    left = max(0, len(h.content) - h.pos)
+    return ('next', rng.choice([0, 1, 1, 2, left, left + 1]))
+  left = max(0, len(h.content) - h.pos)
+  how = rng.choice(['read-n', 'read-n', 'read-all', 'readline'])
+  n = rng.choice([0, 1, 2, 5, 17, left // 2, max(0, left - 1), left, left + 3])
+  return (how, n)
+
+
+def open_reader(path, level, api, read):
+  op = Op('open-reader', path, level=level, api=api, read=read)
+  op.is_write = False
+  op.show = lambda: f'open-reader({api}, {path}, {read})'
+  return op
+
+
+def read_more(handle, read):
+  op = Op('read-more', handle.path, handle=handle, read=read)
+  op.is_write = False
+  op.show = lambda: f'read-more({handle.show()}, {read})'
+  return op
+
+
+def close_reader(handle):
+  op = Op('close-reader', handle.path, handle=handle)
+  op.is_write = False
+  op.show = lambda: f'close-reader({handle.show()})'
+  return op
+
+
+READER_OPS = ('open-reader', 'read-more', 'close-reader')
+
+
+class _End:
+  def __repr__(self):
+    return '<end of sequence>'
+
+
+END = _End()
+
+
 # -- the world -------------------------------------------------------------------
 
 class SeqEntry:
@@ -178,6 +251,7 @@ class World:
     self.probes = 0
     self.reported_dirs = set()
     self.retired = set()
+    self.handles = []
     if fs == 'std':
       r = root
       self.root = r
@@ -276,9 +350,21 @@ class World:
     problems = []
     self.trace.append(op.show())
     path = op.path
+    if op.name in READER_OPS:
+      op.last, op.before, op.probe1, op.probe2, op.readers = '', None, None, None, 0
+      problems = self.apply_reader(op, rng, c)
+      return problems + self.check_all(op, rng, c)
     before = self.files.get(path) if path not in self.seqs else self.seqs.get(path)
     op.last = self.relation(op, before)
-    op.before, op.probe1, op.probe2 = before, None, None
+    op.before, op.probe1, op.probe2, op.probe3 = before, None, None, None
+    # unclosed readers of the path: whatever they did, the operation means the same
+    op.readers = len(self.handles_of(path))
+    if op.name != 'mkdirs':
+      for h in self.handles_of(path):
+        h.stale = True
+    if op.readers:
+      c['persist_writes_with_open_reader' if op.is_write
+        else 'persist_rm_with_open_reader'] += 1
     # model first (soundness rule 4)
     if op.name == 'mkdirs':
       expect_error = None
@@ -308,6 +394,152 @@ class World:
       return problems + self.check_all(op, rng, c, skip=path)
     self.update_model(op)
     return problems + self.check_all(op, rng, c)
+
+  # -- reader handles ---------------------------------------------------------------
+  def handles_of(self, path):
+    return [h for h in self.handles if h.path == path]
+
+  def readable_paths(self):
+    """[(path, level)] of the paths a reader can be opened on."""
+    out = []
+    for p in self.files:
+      out.append((p, 'file'))
+    for p, e in self.seqs.items():
+      out.append((p, 'seq'))
+      if not self.is_memseq(p):
+        out.append((p, 'file'))
+    return sorted(out)
+
+  def close_handles(self, path):
+    for h in self.handles_of(path):
+      try:
+        h.f.close()
+      except Exception:  # pylint: disable=broad-except
+        pass
+      self.handles.remove(h)
+
+  def reader_mech(self, op, shared):
+    fs = 'memseq' if self.is_memseq(op.path) else self.fs
+    return f'{fs}/open-reader' if shared else f'{fs}/{self.path_class(op.path)}'
+
+  def do_read(self, h, read):
+    """Issues one read on the library handle; returns (got, expected):
+    strings/bytes for the file level, for the sequence level lists of records
+    with the marker END appended where the iteration ended."""
+    how, n = read
+    if h.level == 'file':
+      c, p = h.content, h.pos
+      if how == 'read-n':
+        exp, got = c[p:p + n], h.f.read(n)
+      elif how == 'read-all':
+        exp, got = c[p:], h.f.read()
+      else:
+        j = c.find(b'\n' if isinstance(c, bytes) else '\n', p)
+        exp, got = (c[p:j + 1] if j >= 0 else c[p:]), h.f.readline()
+      h.pos += len(exp)
+      return got, exp
+    if h.it is None:
+      h.it = iter(h.f)
+    got, exp = [], []
+    for _ in range(n):
+      if h.pos < len(h.content):
+        exp.append(h.content[h.pos][0])
+        h.pos += 1
+      else:
+        exp.append(END)
+      try:
+        got.append(next(h.it))
+      except StopIteration:
+        got.append(END)
+      if exp[-1] is END or got[-1] is END:
+        break
+    return got, exp
+
+  def same_read(self, h, got, exp):
+    if h.level == 'file':
+      return type(got) is type(exp) and got == exp
+    if len(got) != len(exp):
+      return False
+    for x, y in zip(exp, got):
+      if x is END or y is END:
+        if x is not y:
+          return False
+      elif self.values_same(x, y):
+        return False
+    return True
+
+  def apply_reader(self, op, rng, c):
+    """open-reader / read-more / close-reader. The model is not changed."""
+    problems = []
+    path = op.path
+    if op.name == 'close-reader':
+      h = op.handle
+      c['persist_reader_closes'] += 1
+      try:
+        h.f.close()
+      except Exception as err:  # pylint: disable=broad-except
+        if not h.stale:
+          problems.append(('reader-raises', self.reader_mech(op, len(self.handles_of(path)) > 1),
+                           f'closing {h.show()} raised {type(err).__name__}: {err!s:.200}'))
+      if h in self.handles:
+        self.handles.remove(h)
+      return problems
+    if op.name == 'open-reader':
+      others = len(self.handles_of(path))
+      e = self.seqs.get(path) if path in self.seqs else self.files.get(path)
+      c['persist_reader_opens'] += 1
+      c[f'persist_reader_opens:{op.level}'] += 1
+      if others:
+        c['persist_reader_opens_interleaved'] += 1
+      try:
+        if op.level == 'file':
+          content = e.content() if isinstance(e, SeqEntry) else e.content
+          f = pg.io.open(path, 'rb' if isinstance(content, bytes) else 'r')
+        else:
+          content = list(e.items)
+          if e.raw or op.api == 'open_sequence-raw':
+            f = pg.io.open_sequence(path, 'r')
+          elif op.api == 'open_jsonl':
+            f = pg.open_jsonl(path, 'r')
+          else:
+            f = pg.io.open_sequence(path, 'r', serializer=pg.to_json_str,
+                                    deserializer=pg.from_json_str)
+      except Exception as err:  # pylint: disable=broad-except
+        problems.append(('reader-raises', self.reader_mech(op, others > 0),
+                         f'{op.show()} raised {type(err).__name__}: {err!s:.200}'))
+        return problems
+      h = Handle(path, op.level, op.api, f, content,
+                 raw=isinstance(e, SeqEntry) and e.raw)
+      self.handles.append(h)
+      shared = others > 0
+    else:
+      h = op.handle
+      shared = True      # other readers (at least the checks) came and went meanwhile
+      c['persist_reader_continuations'] += 1
+    if h.stale:
+      # written or removed since it was opened: not judged
+      c['persist_stale_reader_reads'] += 1
+      try:
+        self.do_read(h, op.read)
+      except Exception:  # pylint: disable=broad-except
+        c['persist_stale_reader_raised'] += 1
+      return problems
+    c['persist_reader_checks'] += 1
+    try:
+      got, exp = self.do_read(h, op.read)
+      ok = self.same_read(h, got, exp)
+      detail = f'{op.show()} returned {got!r:.160}, the path holds {exp!r:.160} there'
+    except Exception as err:  # pylint: disable=broad-except
+      ok = None
+      detail = f'{op.show()} raised {type(err).__name__}: {err!s:.200}'
+    h.reads += 1
+    if h.pos:
+      c['persist_readers_left_at_nonzero_position'] += 1
+    if not ok:
+      # (raising instead of returning the content is one way of not returning it)
+      problems.append(('reader-differs', self.reader_mech(op, shared), detail))
+      self.close_handles(path)        # re-synchronise: no reader is left on the path
+    return problems
 
   def relation(self, op, before):
     if op.name in ('rm', 'mkdirs'):
@@ -351,6 +583,7 @@ class World:
 
   def heal(self, path):
     """Forget a path whose state is no longer known."""
+    self.close_handles(path)
     for fn in (pg.io.rm,):
       try:
         fn(path)
@@ -373,6 +606,7 @@ class World:
   def retire(self, path):
     """Stops using (and checking) a path whose state is out of step with the
     model for a reason that removing it could spread to other paths."""
+    self.close_handles(path)
     self.files.pop(path, None)
     self.seqs.pop(path, None)
     for lst in (self.json_paths, self.txt_paths, self.bin_paths, self.seq_paths):
@@ -395,7 +629,7 @@ class World:
   # -- feature (differential replay on a fresh plain path) ---------------------------
   def feature(self, op, c, clause):
     """Why `clause` was observed after `op` (see the module docstring)."""
-    if op.name in ('rm', 'mkdirs'):
+    if op.name in ('rm', 'mkdirs') or op.name in READER_OPS:
       return self.path_class(op.path)
     if op.probe1 is None:
       c['persist_probes'] += 1
@@ -407,18 +641,27 @@ class World:
         op.probe2 = self.replay_fails(op, op.before)
       if clause in op.probe2 or '*' in op.probe2:
         return op.last                    # needs the previous content: the relation decides
+      if op.readers:
+        # the same write over the same content works when nobody reads the
+        # path: replay it with a reader that consumed the path and stays open
+        if op.probe3 is None:
+          op.probe3 = self.replay_fails(op, op.before, reader=True)
+        if clause in op.probe3 or '*' in op.probe3:
+          return op.last.split('-')[0] + '+open-reader'
     if self.path_class(op.path) == 'prefix-name':
       return 'prefix-name'
     return op.last or 'plain'
 
-  def replay_fails(self, op, before):
+  def replay_fails(self, op, before, reader=False):
     """Replays `op` on a fresh plainly named path (after re-creating the
-    previous content when `before` is given) and checks that one path.
-    Returns the set of clauses observed there ('*': the replay raised)."""
+    previous content when `before` is given; with `reader`, a reader that has
+    consumed that content is open during the operation) and checks that one
+    path. Returns the set of clauses observed there ('*': the replay raised)."""
     self.probes += 1
     ext = os.path.splitext(op.path)[1]
     fresh = f'{self.base}/probe{self.probes}/p{ext}'
     is_seq = op.name.endswith(('seq-a', 'seq-w'))
+    leaked = None
     try:
       if before is not None:
         if self.is_memseq(fresh):
@@ -431,6 +674,14 @@ class World:
           pg.io.writefile(fresh, content, mode='wb' if isinstance(content, bytes) else 'w')
       elif op.name in ('writefile', 'writefile-bytes'):
         pg.io.mkdirs(os.path.dirname(fresh))
+      if reader and before is not None:
+        if self.is_memseq(fresh):
+          leaked = pg.io.open_sequence(fresh, 'r')
+          list(iter(leaked))
+        else:
+          leaked = pg.io.open(
+              fresh, 'rb' if isinstance(getattr(before, 'content', None), bytes) else 'r')
+          leaked.read()
       op.run(fresh)
       if is_seq:
         e = SeqEntry(op.raw, (before.items if (before is not None and op.append) else [])
@@ -440,6 +691,11 @@ class World:
         bad = {cl for cl, _ in self.check_file(fresh, op.entry(), True, None)}
     except Exception:  # pylint: disable=broad-except
       bad = {'*'}
+    if leaked is not None:
+      try:
+        leaked.close()
+      except Exception:  # pylint: disable=broad-except
+        pass
     # the probe stays on the file system: keep the model in step
     try:
       pg.io.rm(fresh)
@@ -536,9 +792,16 @@ class World:
     touched = op.path
     paths = self.all_file_paths() + [p for p in self.seq_paths if self.is_memseq(p)]
     paths.sort(key=lambda p: p != touched)          # the touched path first
+    busy = {h.path for h in self.handles}
     for path in paths:
       if path == skip:
         continue
+      if path in busy and not (path == touched and op.name not in READER_OPS):
+        # A history does not read every path after every step: a reader that
+        # is open on the path is left undisturbed for a while.
+        if rng.random() < 0.7:
+          c['persist_checks_deferred(open reader)'] += 1
+          continue
       e = self.seqs.get(path) if path in self.seqs else self.files.get(path)
       if e is None:
         if self.is_memseq(path):
@@ -572,7 +835,23 @@ class World:
                if isinstance(e, SeqEntry) else self.check_file(path, e, full, c))
       if not found:
         continue
-      if path == touched:
+      if path in busy and not (path == touched and op.name not in READER_OPS):
+        # Reading the path while a reader of it is open. Without the reader
+        # (closed: re-synchronised) the same check decides whether it matters.
+        self.close_handles(path)
+        again = (self.check_seq(path, e, None, True) if isinstance(e, SeqEntry)
+                 else self.check_file(path, e, True, None))
+        if not again:
+          fs = 'memseq' if self.is_memseq(path) else self.fs
+          for clause, detail in found:
+            problems.append((clause, f'{fs}/open-reader',
+                             f'{detail}\n(unclosed readers of the path: the same '
+                             f'check passes once they are closed)'))
+          continue
+      if path == touched and op.name in READER_OPS:
+        for clause, detail in found:
+          problems.append((clause, self.mech(op, self.path_class(path)), detail))
+      elif path == touched:
         for clause, detail in found:
           problems.append((clause, self.mech(op, self.feature(op, c, clause)), detail))
       else:
@@ -628,6 +907,8 @@ class World:
     return 'plain'
 
   def cleanup(self):
+    for h in list(self.handles):
+      self.close_handles(h.path)
     for p in list(self.all_file_paths()):
       try:
         pg.io.rm(p)
